@@ -108,6 +108,12 @@ def run(ctx, spec):
         kind = fields.KINDS[(i + spec["shard"]) % len(fields.KINDS)]
         U = fields.make_field(rng, N, kind)
         d2 = d1 * m
+        if N >= 4 and i % 5 == 3:
+            # output spacing exactly the natural single-FFT spacing lambda |z| / (N d1) (the grid the one-step propagator lands on):
+            # an exact relation between five arguments that independent draws never hit
+            # (the distance is chosen for a magnification of 0.1 .. 10; for |m| ~ 1e-9 the module's z - z/(1-m) cancels to 1e-8)
+            z = float(np.sign(float(z)) or 1.0) * float(10 ** rng.uniform(-1, 1)) * N * d1 * d1 / wvl
+            d2 = wvl * abs(z) / (N * d1)
         nontriv = float(np.abs(U).sum()) > 0
         par = {"N": N, "kind": kind, "wvl": wvl, "d1": d1, "d2": d2, "z": float(z), "z_type": type(z).__name__}
         # every call below is judged by the installed contracts; aotools.opticalpropagation.* is the public path
